@@ -107,6 +107,7 @@ def run(ctx):
            sources=sorted(po & set(allowed_src)))
     # hashes used for matched blocks: check_filters_data returns message block_hashes (documented: unverified)
     height_binding(ctx)
+    anchoring(ctx)
 
 
 def height_binding(ctx):
@@ -139,3 +140,62 @@ def height_binding(ctx):
            bool(bound), comparisons=[(n, str(s)) for n, s in bound],
            detail=None if bound else 'BlockFilters.block_hashes[index] is recorded, proved by MMR and indexed without any comparison of the proven '
            'header number with start_number + index: an authentic filter can be paired with the hash of a different main-chain block')
+
+
+def anchoring(ctx):
+    """r5: cached block filter hashes are anchored to finalized check points before they authenticate filters."""
+    P = ctx.prog
+    from engine import panics
+    Dz = panics.Discharger(P)
+    H = ctx.body('BlockFilterHashesProcess::execute')
+    hdu = DefUse(H)
+    # the comparison with the next finalized check point
+    nes = [(b, t) for b, t in P.call_sites(H, lambda k, t: k in ('<Byte32 as PartialEq>::ne', '<Byte32 as PartialEq>::eq'))
+           if any(o[0] == 'call' and o[1] == 'Storage::get_check_points' for o in hdu.origins(t.args[0], stop_at_calls=False) | hdu.origins(t.args[1], stop_at_calls=False))
+           and any(o[0] == 'call' and o[1].endswith('Index>::index') for o in hdu.origins(t.args[0], stop_at_calls=False) | hdu.origins(t.args[1], stop_at_calls=False))]
+    upd = ctx.sites(H, 'Peers::update_cached_block_filter_hashes', 1)
+    cmps = [c for c in Dz.cmps(H) if {c[3], c[4]} == {'end_number', 'next_cached_check_point_number'}]
+    # which comparison controls the check-point comparison, and is it inclusive?
+    cfg = P.cfg(H)
+    incl = False
+    ctrl = None
+    for (bid, i, op, a, b) in cmps:
+        for nb, nt in nes:
+            for acc in ('true', 'false'):
+                ok, _ = Dz.gf(H).check_sink((bid, i), acc, nb, unconditional=True)
+                if ok:
+                    ctrl = (op, a, b, acc)
+                    # the controlling outcome must mean end_number >= next
+                    if (a, b) == ('end_number', 'next_cached_check_point_number'):
+                        incl = (op, acc) in (('Ge', 'true'), ('Lt', 'false'))
+                    else:
+                        incl = (op, acc) in (('Le', 'true'), ('Gt', 'false'))
+    ctx.ob('C06.r5', H.name, 'the hash at the next check point is compared with the finalized check point whenever the batch reaches it', bool(nes) and incl,
+           at=nes[0][1].span if nes else upd[0][1], controlling_test=ctrl,
+           detail=None if (nes and incl) else 'a batch ending exactly at the check point is cached without the comparison (end_number > next instead of >=)')
+    for nb, nt in nes[:1]:
+        acc = 'false' if nt.callee.endswith('::ne') else 'true'
+        ctx.guard('C06.r5', H, lambda k, t, _t=nt: t is _t, acc, upd, unconditional=False, gname='next_cached_check_point vs hash at that number')
+    # BlockFiltersProcess: cached hashes are used only when complete
+    F = ctx.body(EXEC)
+    du = DefUse(F)
+    def near(x):
+        return {o[1] for o in du.origins(x, stop_at_calls=True) if o[0] == 'call'}
+    comp = []
+    for c in ctx.cmp_stmts(F):
+        if c[2] not in ('Ne', 'Eq'):
+            continue
+        a, b = near(c[3]), near(c[4])
+        for x, y in ((a, b), (b, a)):
+            if 'Vec::len' in x and 'Peers::calc_check_point_number' in x and y == {'Peers::calc_check_point_number'}:
+                comp.append(c)
+    use = [(b, t.span, 'cached hashes used as expected hashes') for b, t in P.call_sites(F, lambda k, t: k.endswith('Iterator>::zip'))]
+    if not comp:
+        ctx.ob('C06.r5', F.name, 'cached hashes authenticate filters only when the whole interval up to the next check point is cached', False, at=use[0][1],
+               detail='any non-empty cache is used; partially cached hashes cannot have been compared with a finalized check point')
+    else:
+        c = comp[0]
+        # conditional: the latest-hashes branch does not evaluate it
+        ctx.stmt_guard('C06.r5', F, [c], 'false' if c[2] == 'Ne' else 'true', use, unconditional=False,
+                       gname='cached_check_point_number + cached.len() %s next_cached_check_point_number' % ('!=' if c[2] == 'Ne' else '=='))
+        ctx.ob('C06.r5', F.name, 'cached hashes authenticate filters only when the whole interval up to the next check point is cached', True, at=c[5].span)
